@@ -300,6 +300,8 @@ cleanup:
  *
  */
 int KSI_DataHash_fromImprint(KSI_CTX *ctx, const unsigned char *imprint, size_t imprint_length, KSI_DataHash **hash) {
+	if (imprint == NULL || hash == NULL) return KSI_INVALID_ARGUMENT;
+	if (imprint_length == 0) return KSI_INVALID_FORMAT;
 	return KSI_DataHash_fromDigest(ctx, *imprint, imprint + 1, imprint_length - 1, hash);
 }
 
